@@ -255,6 +255,7 @@ func (tr *FnTrans) loopHeader(h *ssa.BasicBlock, ord int, st *BState, phiVal fun
 	preLoopHeap := st.heap
 	body := tr.loopBody[h]
 	mod, all := tr.modifiedIn(body)
+	loopObjs := tr.loopObjs
 	if all {
 		st.heap = tr.smt.newRootHeap()
 	} else {
@@ -266,6 +267,17 @@ func (tr *FnTrans) loopHeader(h *ssa.BasicBlock, ord int, st *BState, phiVal fun
 		sort.Strings(ks)
 		for _, k := range ks {
 			st.heap.set(k, tr.smt.fresh("Hloop_"+heapKey(k), st.heap.arraySort(k)))
+		}
+		// local variables declared before the loop and assigned inside it: only their own cells change
+		tr.curState = st
+		for _, al := range loopObjs {
+			av, ok := tr.vals[al]
+			if !ok {
+				continue
+			}
+			et := al.Type().Underlying().(*types.Pointer).Elem()
+			v := tr.introduce("lpvar_"+al.Comment, et, st.reach, "loop-havoc of local variable")
+			tr.store(st.heap, av.T, et, v.T)
 		}
 	}
 	tr.assumeStable(st, preLoopHeap, st.heap)
@@ -307,6 +319,26 @@ func (tr *FnTrans) loopHeader(h *ssa.BasicBlock, ord int, st *BState, phiVal fun
 	tr.loopInfo[ord] = kind
 }
 
+// rootAlloc returns the local variable an address lies in (through field and constant-index selection).
+func rootAlloc(v ssa.Value) *ssa.Alloc {
+	for d := 0; d < 20; d++ {
+		switch x := v.(type) {
+		case *ssa.Alloc:
+			return x
+		case *ssa.FieldAddr:
+			v = x.X
+		case *ssa.IndexAddr:
+			if _, isPtr := x.X.Type().Underlying().(*types.Pointer); !isPtr {
+				return nil
+			}
+			v = x.X
+		default:
+			return nil
+		}
+	}
+	return nil
+}
+
 // modifiedIn computes the heap cell sorts written inside a set of blocks.
 func (tr *FnTrans) modifiedIn(blocks []*ssa.BasicBlock) (map[string]bool, bool) {
 	mod := map[string]bool{}
@@ -316,10 +348,22 @@ func (tr *FnTrans) modifiedIn(blocks []*ssa.BasicBlock) (map[string]bool, bool) 
 		tr.curLoopBlocks[b] = true
 	}
 	defer func() { tr.curLoopBlocks = nil }()
+	tr.loopObjs = nil
+	seenObj := map[*ssa.Alloc]bool{}
 	for _, b := range blocks {
 		for _, in := range b.Instrs {
 			switch x := in.(type) {
 			case *ssa.Store:
+				if root := rootAlloc(x.Addr); root != nil {
+					if tr.curLoopBlocks[root.Block()] {
+						continue // variable declared inside the loop: (re)initialised in every iteration
+					}
+					if !seenObj[root] {
+						seenObj[root] = true
+						tr.loopObjs = append(tr.loopObjs, root)
+					}
+					continue
+				}
 				tr.cellSorts(x.Val.Type(), mod)
 			case *ssa.MapUpdate:
 			case ssa.CallInstruction:
@@ -540,6 +584,18 @@ func (tr *FnTrans) unop(st *BState, x *ssa.UnOp) {
 func (tr *FnTrans) indexAddr(st *BState, x *ssa.IndexAddr) {
 	base := tr.val(x.X)
 	idx := tr.val(x.Index)
+	if _, isC := x.Index.(*ssa.Const); !isC && intWidth(idx.Ty) == 64 {
+		// an index the code itself uses: a natural instantiation term for quantified facts about slices
+		known := false
+		for _, c := range tr.idxCands {
+			if c.T == idx.T {
+				known = true
+			}
+		}
+		if !known {
+			tr.idxCands = append(tr.idxCands, idx)
+		}
+	}
 	switch u := x.X.Type().Underlying().(type) {
 	case *types.Slice:
 		tr.safety("index", "slice index out of range", st, tr.idxInRange(idx, fmt.Sprintf("(slen %s)", base.T)), x.Pos())
@@ -912,22 +968,39 @@ func (tr *FnTrans) assumeHyp(env *Env, x *Expr, guard, origin string) string {
 	t := env.evalHyp(x)
 	tr.assume(guard, t, origin)
 	if hasQuant(x) {
-		tr.qhyps = append(tr.qhyps, qhyp{env, x, guard, origin})
+		tr.qhyps = append(tr.qhyps, &qhyp{env: env, x: x, guard: guard, origin: origin})
 	}
 	return t
 }
 
+// reinstantiate adds, for index terms that became known since the last call (loop counters),
+// instances of all quantified hypotheses to the global assumption list.
 func (tr *FnTrans) reinstantiate() {
 	if len(tr.idxCands) == tr.lastReinst {
 		return
 	}
+	fresh := tr.idxCands[tr.lastReinst:]
 	tr.lastReinst = len(tr.idxCands)
+	tr.instantiateWith(fresh)
+}
+
+func (tr *FnTrans) instantiateWith(cands []Val) {
 	for _, q := range tr.qhyps {
-		tr.assume(q.guard, q.env.evalHyp(q.x), q.origin+" (instantiated again)")
+		e2 := *q.env
+		e2.instOnly = cands
+		tr.assume(q.guard, e2.evalHyp(q.x), q.origin+" (instance)")
 	}
 	for _, f := range tr.reinst {
-		f()
+		f(cands)
 	}
+}
+
+func (tr *FnTrans) globalCands() []Val {
+	lo := len(tr.idxCands) - 10
+	if lo < 0 {
+		lo = 0
+	}
+	return tr.idxCands[lo:]
 }
 
 // siteFor returns the call-site record for an alias; for a site that has not been translated yet
@@ -1068,7 +1141,7 @@ func (tr *FnTrans) doCall(st *BState, ci ssa.CallInstruction) Val {
 	if tr.c != nil {
 		for _, alias := range tr.siteDeclOf[ci] {
 			for _, sa := range tr.c.Asserts {
-				if sa.Alias == alias && !sa.After {
+				if sa.Alias == alias && !sa.After && !sa.Assume {
 					env := tr.envAt(tr.curBlock, tr.curIdx, site.Before, tr.entryHeap)
 					lbl := sa.C.Name
 					if lbl == "" {
@@ -1132,6 +1205,7 @@ func (tr *FnTrans) doCall(st *BState, ci ssa.CallInstruction) Val {
 	}
 	site.After = st.heap
 	st.heap = st.heap.child()
+	tr.applyDecoded(st, site)
 
 	if spec != nil {
 		tr.applySpec(st, site, spec, cc)
@@ -1152,6 +1226,12 @@ func (tr *FnTrans) doCall(st *BState, ci ssa.CallInstruction) Val {
 	if tr.c != nil {
 		for _, alias := range tr.siteDeclOf[ci] {
 			for _, sa := range tr.c.Asserts {
+				if sa.Alias == alias && sa.Assume {
+					env := tr.envAt(tr.curBlock, tr.curIdx+1, site.After, tr.entryHeap)
+					tr.assume(st.reach, env.evalHyp(sa.C.E), "ghost definition at "+alias+": "+sa.C.Src)
+					tr.usedSpecs["ghost definition (each execution of the site defines the ghost function at a new argument): "+tr.name+": "+sa.C.Src] = true
+					continue
+				}
 				if sa.Alias == alias && sa.After {
 					env := tr.envAt(tr.curBlock, tr.curIdx+1, site.After, tr.entryHeap)
 					lbl := sa.C.Name
@@ -1287,6 +1367,46 @@ func (tr *FnTrans) applyModifies(st *BState, site *Site, spec *Contract, cc *ssa
 	}
 }
 
+type pendingDec struct {
+	ptr  Val
+	elem types.Type
+	site *Site
+}
+
+// applyDecoded assumes the decoder postconditions declared for the destination type of a decoder call.
+func (tr *FnTrans) applyDecoded(st *BState, site *Site) {
+	pend := tr.pendingDecoded
+	tr.pendingDecoded = nil
+	for _, pd := range pend {
+		if pd.site != site || len(site.Results) == 0 {
+			continue
+		}
+		errV := site.Results[len(site.Results)-1]
+		if !isIfaceT(errV.Ty) {
+			continue
+		}
+		named, ok := pd.elem.(*types.Named)
+		if !ok {
+			continue
+		}
+		for _, d := range tr.eng.decoded {
+			if !siteMatches(site.Callee, d.Callee) {
+				continue
+			}
+			tn := d.Type
+			if i := strings.LastIndex(tn, "."); i >= 0 {
+				tn = tn[i+1:]
+			}
+			if named.Obj().Name() != tn {
+				continue
+			}
+			env := &Env{tr: tr, heap: site.After, oldHeap: site.Before, vars: map[string]Val{"v": pd.ptr}, quiet: true, pkg: named.Obj().Pkg()}
+			tr.assume(and(st.reach, fmt.Sprintf("(= (itag %s) 0)", errV.T)), env.evalHyp(d.C.E), "decoded "+d.Type+": "+d.C.Src)
+			tr.usedSpecs["assumed decoder postcondition: "+d.Type+" by "+d.Callee+": "+d.C.Src] = true
+		}
+	}
+}
+
 // pointeeArg finds the static pointer type boxed into an interface argument (or the pointer
 // argument itself) named by a `modifies pointee(name)` clause.
 func pointeeArg(cc *ssa.CallCommon, name string) (ssa.Value, types.Type) {
@@ -1318,6 +1438,7 @@ func (tr *FnTrans) havocPointee(st *BState, site *Site, cc *ssa.CallCommon, name
 			et := al.Type().Underlying().(*types.Pointer).Elem()
 			v := tr.introduce("dec_"+al.Comment, et, st.reach, "written by "+site.Callee)
 			tr.store(st.heap, av.T, et, v.T)
+			tr.pendingDecoded = append(tr.pendingDecoded, pendingDec{av, et, site})
 			return
 		}
 	}
@@ -1604,16 +1725,19 @@ func (tr *FnTrans) moveCells(st *BState, et types.Type, moves []cellMove, tag st
 				inRange := and(tr.ivLe(tr.lit64(0), q), tr.ivLt(q, mv.n))
 				dst := pathAddr(tr.elemAddr(mv.dBase, tr.ivAdd(mv.dOff, q)), p.fields)
 				src := pathAddr(tr.elemAddr(mv.sBase, tr.ivAdd(mv.sOff, q)), p.fields)
-				fact := fmt.Sprintf("(forall ((%s %s)) (=> %s (= (select %s %s) (select %s %s))))", q, is, inRange, nw, dst, old, src)
-				tr.assume(and(st.reach, mv.guard), fact, tag+": contents")
+				_, _, _ = inRange, dst, src // the quantified original is not emitted: instances are generated below
 				// explicit instances for the index terms known so far, and again whenever new ones appear
 				done := map[string]bool{}
 				guard := and(st.reach, mv.guard)
 				mv, p := mv, p
-				inst := func() {
-					for _, c := range tr.candidates(is) {
+				inst := func(cs []Val) {
+					for _, c := range append([]string{tr.lit64(0)}, tr.candidatesOf(cs, is)...) {
 						// the element index is either c itself or c taken relative to the destination offset
-						for _, idx := range []string{c, tr.ivSub(c, tr.ivSub(mv.dOff, mv.sOff))} {
+						idxs := []string{c, tr.ivSub(c, tr.ivSub(mv.dOff, mv.sOff))}
+						if mv.dRel != "" {
+							idxs = append(idxs, tr.ivSub(c, tr.ivSub(mv.dOff, mv.dRel)))
+						}
+						for _, idx := range idxs {
 							if done[idx] {
 								continue
 							}
@@ -1625,17 +1749,17 @@ func (tr *FnTrans) moveCells(st *BState, et types.Type, moves []cellMove, tag st
 						}
 					}
 				}
-				inst()
+				inst(tr.globalCands())
 				tr.reinst = append(tr.reinst, inst)
-				m, el := pathMatch("r!", p.fields)
+				m, el := pathMatch("r%%", p.fields)
 				changed = append(changed, and(mv.guard, m, fmt.Sprintf("(= (ebase %s) %s)", el, mv.dBase), tr.ivLe(mv.dOff, fmt.Sprintf("(eidx %s)", el)), tr.ivLt(fmt.Sprintf("(eidx %s)", el), tr.ivAdd(mv.dOff, mv.n))))
 			}
 		}
-		frame := fmt.Sprintf("(forall ((r! Ref)) (=> (not %s) (= (select %s r!) (select %s r!))))", or(changed...), nw, old)
-		tr.assume(st.reach, frame, tag+": frame")
-		tr.frames = append(tr.frames, frameFact{guard: st.reach, old: old, nw: nw, changedOf: func(r string) string {
-			return strings.ReplaceAll(or(changed...), "r!", r)
-		}})
+		chg := or(changed...)
+		ff := &frameFact{guard: st.reach, old: old, nw: nw, changedOf: func(r string) string {
+			return strings.ReplaceAll(chg, "r%%", r)
+		}}
+		tr.heapAnc[nw] = append([]*frameFact{ff}, tr.heapAnc[old]...)
 	}
 	return true
 }
@@ -1643,6 +1767,7 @@ func (tr *FnTrans) moveCells(st *BState, et types.Type, moves []cellMove, tag st
 type cellMove struct {
 	guard                        string
 	dBase, dOff, sBase, sOff, n string
+	dRel                         string // offset of the destination slice value: index j of that slice is move index j-(dOff-dRel)
 }
 
 type frameFact struct {
@@ -1729,8 +1854,8 @@ func (tr *FnTrans) appendOp(st *BState, ci ssa.CallInstruction, args []Val) Val 
 		done := map[string]bool{}
 		guard := and(st.reach, tr.boolNot(fits))
 		sb, so := fmt.Sprintf("(sbase %s)", s.T), fmt.Sprintf("(soff %s)", s.T)
-		inst := func() {
-			for _, c := range tr.candidates(is) {
+		inst := func(cs []Val) {
+			for _, c := range tr.candidatesOf(cs, is) {
 				if done[c] {
 					continue
 				}
@@ -1742,13 +1867,13 @@ func (tr *FnTrans) appendOp(st *BState, ci ssa.CallInstruction, args []Val) Val 
 				}
 			}
 		}
-		inst()
+		inst(tr.globalCands())
 		tr.reinst = append(tr.reinst, inst)
 		return Val{T: res, Ty: s.Ty}
 	}
 	moves := []cellMove{
 		// appended elements
-		{guard: "true", dBase: rb, dOff: tr.ivAdd(ro, oldLen), sBase: fmt.Sprintf("(sbase %s)", extra.T), sOff: fmt.Sprintf("(soff %s)", extra.T), n: addLen},
+		{guard: "true", dBase: rb, dOff: tr.ivAdd(ro, oldLen), sBase: fmt.Sprintf("(sbase %s)", extra.T), sOff: fmt.Sprintf("(soff %s)", extra.T), n: addLen, dRel: ro},
 		// on reallocation the old prefix is copied into the new array
 		{guard: tr.boolNot(fits), dBase: rb, dOff: ro, sBase: fmt.Sprintf("(sbase %s)", s.T), sOff: fmt.Sprintf("(soff %s)", s.T), n: oldLen},
 	}
